@@ -394,7 +394,7 @@ def random_cases(rng, tier):
             sec = _interval(rng, 4 * td, allow_zero=not box) if mode != "smp" else []
             smp = [] if mode == "sec" else (_interval(rng, 4 * sr) if mode == "smp" else [sec[0] * sr // td, sec[1] * sr // td])
             frq = _interval(rng, sr * fd // 2, False) if box else []
-            els.append({"sec": sec, "smp": smp, "frq": frq, "label": rng.choice(["L%d" % (j + 1), "__empty__", "a b", "x:y", " L%d" % (j + 1), "y\n", " ", "\tz "])})
+            els.append({"sec": sec, "smp": smp, "frq": frq, "label": rng.choice(["L%d" % (j + 1), "__empty__", "a b", "x:y", " L%d" % (j + 1), "y\n", " ", "\tz ", "e", "_", "__", "pty", "empty", "m"])})
         yield {"kind": "rt", "via": via, "sr": sr, "te": [1, 1], "tden": td, "fden": fd, "exact": True, "cast": False, "ign": False,
                "rtg": True, "vo": True, "ikey": rng.choice([[], ["K"]]), "sel": rng.choice([[], [], ["TM"]]), "els": els}
     rates = [(8, [8, 1]), (100, [100, 1]), (1000, [1000, 1]), (8000, [8000, 1]), (22050, [22050, 1]), (44100, [210, 210]),
